@@ -1768,15 +1768,33 @@ func TestVerifC20(t *testing.T) {
 		os.Exit(2)
 	}
 
-	var parts []partDef
-	parts = append(parts, e.hooksPart())
-	for _, sc := range []string{"global", "local", "wt2", "wtmain", "file", "system"} {
-		full := e.thorough || sc == "global"
-		parts = append(parts, e.cfgPart(sc, full))
+	wantOnly := ""
+	if c.Replay != "" {
+		// the indices in a replay file refer to the initial states / alphabets of the tier it was recorded with
+		if rf, err := c.LoadReplay(); err == nil && (rf.Tier == "quick" || rf.Tier == "thorough") {
+			e.thorough = rf.Tier == "thorough"
+			wantOnly = rf.Scenario // build only that scenario
+		}
 	}
-	parts = append(parts, e.mixedPart(false))
+	type builder struct {
+		name string
+		mk   func() partDef
+	}
+	builders := []builder{{"hooks", e.hooksPart}}
+	for _, sc := range []string{"global", "local", "wt2", "wtmain", "file", "system"} {
+		sc := sc
+		full := e.thorough || sc == "global"
+		builders = append(builders, builder{"cfg-" + sc, func() partDef { return e.cfgPart(sc, full) }})
+	}
+	builders = append(builders, builder{"mixed", func() partDef { return e.mixedPart(false) }})
 	if e.thorough {
-		parts = append(parts, e.mixedPart(true))
+		builders = append(builders, builder{"mixed-deep", func() partDef { return e.mixedPart(true) }})
+	}
+	var parts []partDef
+	for _, b := range builders {
+		if wantOnly == "" || wantOnly == b.name {
+			parts = append(parts, b.mk())
+		}
 	}
 
 	c.Rule = "multi-source BFS with canonical-state dedup (key = type/mode/bytes of every entry of every hooks directory and of symlinked user scripts + all config values of the 6 scope files) over the real git-lfs binary. " +
@@ -1813,10 +1831,6 @@ func TestVerifC20(t *testing.T) {
 		for i := range parts {
 			p := &parts[i]
 			if p.Name == rf.Scenario {
-				if rf.Tier != c.Tier {
-					fmt.Printf("TOOL-ERROR property=C20 replay file was recorded with --tier %s; re-run with that tier\n", rf.Tier)
-					os.Exit(2)
-				}
 				run := e.replayRun(p)
 				exec := func(pr []vx.Point) vx.Result { return vx.SafeRun(run, pr) }
 				r := exec(rf.Prefix)
